@@ -459,7 +459,7 @@ func c07Calls(r *rand.Rand, st *stack, nic mon.NIC, e gen.Env, n int) []txCall {
 				src.MAC = hw(randMAC(r)) // the Ethernet source must stay the NIC MAC whatever the caller passes
 			}
 			dm, dip := randMAC(r), any4()
-			name := []string{"WORKSTATION", "A", "0123456789ABCDEF"}[r.Intn(3)]
+			name := []string{"WORKSTATION", "A", "0123456789ABCDEF", "0123456789ABCDEFG", "A-NAME-LONGER-THAN-NETBIOS-ALLOWS", strings.Repeat("N", 44)}[r.Intn(6)]
 			calls = append(calls, txCall{api: "dns.SendNBNSQuery", args: fmt.Sprintf("src=%s dst=%x/%v %q", src.MAC, dm[:], dip, name),
 				call: func() error { return st.dns.SendNBNSQuery(src, packet.Addr{MAC: hw(dm), IP: dip}, name) },
 				verify: func(err error, fr []mon.TxFrame, in []mon.TxInfo) string {
@@ -469,6 +469,23 @@ func c07Calls(r *rand.Rand, st *stack, nic mon.NIC, e gen.Env, n int) []txCall {
 					x := in[0]
 					if x.D.DstPort != 137 || x.D.DstIP != dip || x.D.DstMAC != dm || x.DNS == nil || len(x.DNS.Q) != 1 || x.DNS.Q[0].Type != 0x20 {
 						return "nbns-fields: not an NBNS name query to the requested destination"
+					}
+					// RFC 1001 first level encoding: one label of 32 characters, two per byte of the 16 byte NetBIOS name; a
+					// name longer than that is cut, a shorter one padded with spaces
+					label, _, _ := strings.Cut(x.DNS.Q[0].Name, ".")
+					if len(label) != 32 {
+						return fmt.Sprintf("nbns-name: the question name label has %d characters, an encoded NetBIOS name has 32", len(label))
+					}
+					var dec [16]byte
+					for i := range dec {
+						dec[i] = (label[2*i]-'A')<<4 | (label[2*i+1] - 'A')
+					}
+					want := name
+					if len(want) > 16 {
+						want = want[:15]
+					}
+					if !strings.HasPrefix(string(dec[:]), want) || strings.TrimRight(string(dec[len(want):]), " \x00") != "" {
+						return fmt.Sprintf("nbns-name: the question asks for %q, requested %q", dec[:], name)
 					}
 					return ""
 				}})
